@@ -6,7 +6,8 @@ VERIF = os.path.dirname(os.path.dirname(os.path.abspath(__file__)))
 
 
 def write(pid, tier, seed, coverage, assumptions, wall, violations, level="model_checking"):
-    os.makedirs(os.path.join(VERIF, "evidence"), exist_ok=True)
+    edir = os.environ.get("VERIF_EVIDENCE_DIR") or os.path.join(VERIF, "evidence")
+    os.makedirs(edir, exist_ok=True)
     doc = {
         "property_id": pid,
         "tier": tier,
@@ -17,7 +18,7 @@ def write(pid, tier, seed, coverage, assumptions, wall, violations, level="model
         "wall_s": round(float(wall), 2),
         "violations": int(violations),
     }
-    path = os.path.join(VERIF, "evidence", f"{pid}.json")
+    path = os.path.join(edir, f"{pid}.json")
     tmp = path + ".tmp"
     with open(tmp, "w", encoding="utf-8") as f:
         json.dump(doc, f, indent=1, ensure_ascii=False, default=repr)
